@@ -11,6 +11,9 @@ META = {
     'assumptions': ['"unambiguous Shift-JIS" = characters on which python\'s shift_jis and cp932 codecs agree and round-trip (backslash and tilde included: WHATWG Shift_JIS, which truth uses, maps 0x5C/0x7E to them both ways)'],
     'floors': {'strings_survived': 300, 'rejected_as_expected': 20, 'encodings': 8, 'msg_builtin_games': 6, 'metadata_strings': 40},
 }
+# characters that the JIS X 0208 tables (python's shift_jis) map but the WHATWG Shift_JIS encoder (encoding_rs, i.e. truth) does not:
+# they are unencodable for truth, which has to reject them - not replace them by their full-width look-alikes
+JIS_ONLY = set('\u301c\u2016\u2014\u00a2\u00a3\u00ac')
 SIZES = {'quick': 3600, 'thorough': 40000}
 REP = None
 
@@ -75,7 +78,7 @@ def user_sig_case(ctx, r):
             room = target - len(s.encode('shift_jis'))
             s += r.pick(R['kana'] + R['kanji']) if room >= 2 and r.chance(0.4) else r.pick(R['ascii'])
         ctx.count('exact_fit_strings')
-    if r.chance(0.06): s += r.pick(['é', '€', '한', '😀'])     # not encodable in Shift-JIS
+    if r.chance(0.08): s += r.pick(['é', '€', '한', '😀', '\u301c', '\u2016', '\u2014', '\u00a2', '\u00a3', '\u00ac', '\u23c4'])     # not encodable in (WHATWG) Shift-JIS; the JIS-table look-alikes of ～ ∥ ― ￠ ￡ ￢ included
     args = list(extra.get('pre', [])) + [('s', s)] + list(extra.get('post', []))
     obs = AC.roundtrip_call(ctx, 'anm', 'th12', 900, sigtext, args)
     judge_string(ctx, obs, s, sp, 'anm-user:' + sigtext, idx=len(extra.get('pre', [])), header_limit=0xffff - 8)
@@ -88,7 +91,7 @@ def judge_string(ctx, obs, s, sp, enc_tag, idx=0, header_limit=None, nth=0, size
         p = c.get('panic') or {}
         ctx.violation('string:%s:panic:%s' % (enc_tag.split(':')[0], core.panic_sig(p) if p else c.get('abort')), (p.get('msg') or str(c.get('abort')))[:200], replay); return
     try:
-        enc = s.encode('shift_jis'); encodable = s.encode('cp932') == enc
+        enc = s.encode('shift_jis'); encodable = s.encode('cp932') == enc and not (set(s) & JIS_ONLY)
     except UnicodeEncodeError:
         enc, encodable = None, False
     cap = capacity(sp) if sp is not None else None
@@ -220,7 +223,7 @@ def metadata_case(ctx, r):
         p = c.get('panic') or {}
         ctx.violation('string:%s:panic:%s' % (k, core.panic_sig(p) if p else c.get('abort')), (p.get('msg') or '')[:200], replay); return
     try:
-        enc = s.encode('shift_jis'); encodable = s.encode('cp932') == enc
+        enc = s.encode('shift_jis'); encodable = s.encode('cp932') == enc and not (set(s) & JIS_ONLY)
     except UnicodeEncodeError: enc, encodable = None, False
     too_long = encodable and cap is not None and len(enc) > cap
     # (an ANM path that starts with '@' has a special meaning; not generated)
